@@ -113,11 +113,45 @@ def run(rep, tier, rng):
                 if rng.random() < 0.15:
                     lines.append("")            # an empty line is ignored
             variants.append(lines)
-        sess.append((forms, variants))
-    mcases = [("s%d_%d" % (i, v), "repl", lines) for i, (forms, variants) in enumerate(sess) for v, lines in enumerate(variants)]
+        # a fourth way of entering the session: neighbouring forms share one line (one submission evaluates them all and
+        # prints the value of the LAST one only); the grouping is kept, its transcript is predicted from per-form results
+        groups, cur = [], []
+        for f in forms:
+            cur.append(f)
+            if rng.random() < 0.55 or "\n" in f or ";" in f:
+                groups.append(cur); cur = []
+        if cur:
+            groups.append(cur)
+        sess.append((forms, variants, groups))
+    mcases = [("s%d_%d" % (i, v), "repl", lines) for i, (forms, variants, _) in enumerate(sess) for v, lines in enumerate(variants)]
+    seq = C.run_hx([("q%d" % i, "session", ["std"] + forms) for i, (forms, _, _) in enumerate(sess)] +
+                   [("f%d" % i, "session", ["std+perform"] + forms) for i, (forms, _, _) in enumerate(sess)])
+    # keep a grouping only up to (and including) the first form that fails inside a group before its end: the rest of that
+    # submission is not evaluated, which the per-form reference run cannot predict
+    joined = {}
+    for i, (forms, variants, groups) in enumerate(sess):
+        per = seq.get("f%d" % i, [])
+        if len(per) != 3 * len(forms):
+            continue
+        per = [(per[3 * j][2:], per[3 * j + 1][2:], per[3 * j + 2][2:]) for j in range(len(forms))]
+        lines, want_out, want_err, j = [], "", [], 0
+        for g in groups:
+            res = per[j:j + len(g)]
+            if any(e for (_, _, e) in res[:-1]):
+                break
+            lines.append(" ".join(g))
+            want_out += "".join(o for (o, _, _) in res)
+            if res[-1][2]:
+                want_err.append(res[-1][2])
+            elif res[-1][1]:
+                want_out += res[-1][1] + C.esc_out("\n")
+            j += len(g)
+        if any(len(g) > 1 for g in groups[:len(lines)]):
+            joined[i] = (lines, want_out, want_err)
+            mcases.append(("j%d" % i, "repl", lines))
     model = C.run_driver(mcases)
-    seq = C.run_hx([("q%d" % i, "session", ["std"] + forms) for i, (forms, _) in enumerate(sess)])
-    for i, (forms, variants) in enumerate(sess):
+    rep.extra["sessions_with_several_forms_on_one_line"] = len(joined)
+    for i, (forms, variants, groups) in enumerate(sess):
         outs = []
         for v, lines in enumerate(variants):
             rc, out, err = F.run_repl(binp, work, "\n".join(lines) + "\n")
@@ -145,6 +179,20 @@ def run(rep, tier, rng):
             rep.violation({"what": "the session does not equal evaluating the same forms one after another on one interpreter",
                            "forms": forms, "repl": [outs[0][1], outs[0][2]], "sequential": ref})
             continue
+        if i in joined:
+            lines, want_out, want_err = joined[i]
+            rc, out, err = F.run_repl(binp, work, "\n".join(lines) + "\n")
+            kinds = ["syntax" if k.startswith("syntax") else k for k in (F.msg_kind(l) for l in err.split("\n") if l.strip())]
+            if rc != 0 or C.esc_out(out) != want_out or kinds != want_err:
+                rep.violation({"what": "a submission of several forms does not print exactly what its forms write plus the value of its "
+                                       "last form (nothing for a definition or an unspecified value)", "lines": lines,
+                               "repl": [out, kinds], "expected_stdout": want_out, "expected_errors": want_err})
+                continue
+            m = model.get("j%d" % i, [])
+            if (m[0][2:] if m else None) != C.esc_out(out) or [x.split(" ")[1] for x in m[1:]] != kinds:
+                rep.violation({"broken": "correspondence Front.replRun <-> repl.rs", "lines": lines,
+                               "implementation": [out, kinds], "model": m}, no_input=True)
+                continue
         for v in range(len(variants)):
             m = model.get("s%d_%d" % (i, v), [])
             mo = m[0][2:] if m else None
